@@ -378,4 +378,6 @@ def r8(ctx):
     admitted into an empty datagram is lost for good - shared obligation C05.R1 (capacity liveness for every MTU)"""
     c05.r1(_Sub(ctx, "C09.R8"))
 
+EXPLANATION = EXPLANATION + ' (R7) repository idioms; (R8) the capacity constants and fragment size per MTU (shared obligations C05.R1: an over-long fragment is a datagram above the MTU).'
+
 RULES = [("C09.R1", r1), ("C09.R2", r2), ("C09.R3", r3), ("C09.R4", r4), ("C09.R5", r5), ("C09.R6", r6), ("C09.R7", r_idioms), ("C09.R8", r8)]
